@@ -797,6 +797,16 @@ example : scanRoot (B "/s/storage") (B "/s") (B "/s/mirror/s/storage/x") = .erro
 example : scanRoot (B "/s/storage") (B "/s") (B "mirror/s/storage") = .error .outside := by decide
 example : ensureAbsPath (B "/a/root") (B "/a/mirror/a/root/x") = .error .outside := by decide
 example : ensureRelPath (B "/a/root") (B "../mirror/a/root/x") = .error .outside := by decide
+-- a sibling that differs from the root in letter case only (seeded C18-r5-1: scope comparison that folds case): a different directory
+example : buildFilePath (B "/T/data/cache") (B "../Cache/sec") false = .error .integrity := by decide
+example : buildFilePath (B "/T/data/cache") (B "../Cache/sub/") false = .error .integrity := by decide
+example : buildFilePath (B "/T/data/cache") (B "../Cache") false = .error .integrity := by decide
+example : buildFilePath (B "/T/data/cache") (B "../Cache/secret") true = .error .integrity := by decide
+example : buildFilePath (B "/T/data/cache") (B "../cache/sec") false = .ok (B "/T/data/cache/sec") := by decide
+example : unpackDst (B "/s/tmp/t") (B "../../../S/evil") = .error .insecure := by decide
+example : scanRoot (B "/s/storage") (B "/s") (B "/s/Storage/sub") = .error .outside := by decide
+example : ensureAbsPath (B "/a/root") (B "/a/Root/sub/new") = .error .outside := by decide
+example : ensureRelPath (B "/a/root") (B "../Root/k") = .error .outside := by decide
 -- ScanStorage (#23): sibling sharing the name prefix, relative roots
 example : scanRoot (B "/s/storage") (B "/s") (B "/s/storage-other") = .error .outside := by decide
 example : scanRoot (B "/s/storage") (B "/s") (B "storage-other/x") = .error .outside := by decide
